@@ -317,8 +317,10 @@ def execute(case, ctx):
     ctx.shape = (n, case["clauses"], sorted(installed), case["calls"],
                  case.get("plan"), [installed[k]["shape"]
                                     for k in sorted(installed)])
-    saved = (solvermod.subprocess, solvermod.os, solvermod.tempfile,
-             tempfile.tempdir, sys.stderr, sys.stdout)
+    saved_mod = {a: getattr(solvermod, a) for a in ("subprocess", "os",
+                                                    "tempfile")
+                 if hasattr(solvermod, a)}
+    saved = (tempfile.tempdir, sys.stderr, sys.stdout)
     tempfile.tempdir = tmp
     try:
         for ci, c in enumerate(case["calls"]):
@@ -348,15 +350,19 @@ def execute(case, ctx):
                 _one_call(case, ctx, F, c, ci, route, plan, tmp,
                           ref_verdict, clauses, n)
     finally:
-        (solvermod.subprocess, solvermod.os, solvermod.tempfile,
-         tempfile.tempdir, sys.stderr, sys.stdout) = saved
+        (tempfile.tempdir, sys.stderr, sys.stdout) = saved
+        for a, v in saved_mod.items():
+            setattr(solvermod, a, v)
 
 
 def _one_call(case, ctx, F, c, ci, route, plan, tmp, ref_verdict, clauses, n,
               learn=False):
     sp = SimSubprocess(case["installed"], plan, ctx, open)
-    solvermod.subprocess = sp
-    if plan.get("extended"):
+    rebound = simproc.rebind(solvermod, sp)
+    if not rebound:
+        solvermod.subprocess = sp
+    if plan.get("extended") and hasattr(solvermod, "os") and \
+            hasattr(solvermod, "tempfile"):
         solvermod.os = _OsProxy(plan, ctx)
         solvermod.tempfile = _TempfileProxy(plan, ctx)
     err = SimStream(name="<stderr>")
@@ -368,11 +374,20 @@ def _one_call(case, ctx, F, c, ci, route, plan, tmp, ref_verdict, clauses, n,
         res = _invoke(F, c, arg)
     finally:
         sys.stderr, sys.stdout = sys.__stderr__, sys.__stdout__
-        solvermod.os = os
-        solvermod.tempfile = tempfile
+        if hasattr(solvermod, "os"):
+            solvermod.os = os
+        if hasattr(solvermod, "tempfile"):
+            solvermod.tempfile = tempfile
+        for attr, val in rebound:
+            setattr(solvermod, attr, val)
     leftovers = sorted(os.listdir(tmp))
     for f in leftovers:
-        os.unlink(os.path.join(tmp, f))
+        pth = os.path.join(tmp, f)
+        if os.path.isdir(pth):
+            import shutil
+            shutil.rmtree(pth, True)
+        else:
+            os.unlink(pth)
     ctx.log("call", ci, c["method"], c["cmd"], c["sameas"],
             {k: v for k, v in plan.items() if not k.startswith("_")
              and k != "garbage"},
